@@ -33,6 +33,14 @@ def root_pair(rng):
     dv = rng.choice([1] * 10 + [0, 2, -1, 3])
     nv = v + dv
     u = gen.envelope(gen.root_md(new_keys, new_thr, [gen.key(9)], rng.randint(1, 2), version=nv))
+    SPECS = ["0.6.0", "0.1.0", "1.0.0", "2.0.0", "17.3.9", "2", "x", "", "0.6.0-rc1", "\u0662.0"]
+    if rng.random() < 0.3:
+        u["signed"]["metadata_spec_version"] = rng.choice(SPECS)         # any string is a spec version; acceptance does not depend on it
+    if rng.random() < 0.15:
+        trusted["signed"]["metadata_spec_version"] = rng.choice(SPECS)
+    if rng.random() < 0.06:
+        # trusted metadata that is well formed, delegates a role called "root" to these keys and carries a version — but is not root metadata
+        trusted = gen.envelope(gen.delegating_md("key_mgr", {"root": gen.delegation(old_keys, old_thr), "pkg_mgr": gen.delegation([gen.key(9)], 1)}, version=v))
     # signer sets around both thresholds
     so = rng.sample(old_keys, max(0, min(len(old_keys), old_thr + rng.choice([-1, 0, 0, 0, 1]))))
     sn = rng.sample(new_keys, max(0, min(len(new_keys), new_thr + rng.choice([-1, 0, 0, 0, 1]))))
